@@ -261,7 +261,7 @@ func NewTypecast(scope *types.Scope, imports util.ImportNames, t types.Type, inn
 			expr = fmt.Sprintf("%v.%v", typ.Obj().Pkg().Name(), typ.Obj().Name())
 		}
 	case *types.Basic:
-		expr = typ.Name()
+		expr = imports.TypeName(typ)
 	default:
 		return nil, false
 	}
